@@ -226,6 +226,36 @@ def replay_cases(chk, exe, cases, tag, isolate=200):
     return n, wall
 
 
+WALK_STYLES = ["walk_range_for", "walk_for_pre", "walk_std_for_each", "walk_for_post", "walk_while_pre", "walk_do_while_pre", "walk_deref_preinc",
+               "preinc_equals_it", "preinc_value_index", "begin_is_end", "begin_ne_end"]
+POSTFIX_STYLES = ["walk_deref_postinc", "postinc_value_is_old", "postinc_value_index"]
+POSTFIX_SIG = "multidim_index_iterator/operator++(int)/value-designates-new-position"
+
+
+def replay_postfix_value(chk, exe, post):
+    """The value of it++ must designate the OLD position (cases IterPost2 / IterPost3: `*it++` loops, v = it++ compared with
+    the old and the new position).  All mismatches of this family are one defect of the header (the postfix operator
+    returns a reference to the advanced iterator), so they are reported under ONE signature."""
+    hs = [[c] for c in post]
+    chk.count_actions(hs)
+    res, rc, stderr, wall = adt.run_driver(exe, hs, "c17-iterpost", isolate=50)
+    if rc not in (0,) and not res:
+        raise tla.InfraError("driver produced nothing for the postfix cases (rc=%s): %s" % (rc, stderr[-1500:]))
+    mms = adt.compare(hs, res, rc, stderr)
+    for mm in mms:
+        if mm["kind"] == "missing":
+            raise tla.InfraError("driver stopped without result for postfix case %d (rc=%s): %s" % (mm["case"], rc, stderr[-1500:]))
+        c = hs[mm["case"]][0]
+        what = ("%s extent %s: %s expected %s observed %s (the value of it++ designates the new position: `*it++` skips the first "
+                "coordinate and dereferences end())" % (c["a"], c["arg"]["d"], mm["field"], json.dumps(mm.get("expected"))[:200], json.dumps(mm.get("observed"))[:200]))
+        rep = {"kind": "history", "property": chk.pid, "tag": "c17-iterpost", "sig_prefix": SIG, "fixed_sig": POSTFIX_SIG, "meta": None,
+               "history": hs[mm["case"]], "mismatch": {k: v for k, v in mm.items() if k != "stderr"}}
+        sig = POSTFIX_SIG if mm["kind"] == "value" else sig_of(SIG, mm)
+        chk.violation(sig, what, rep)
+    chk.cov["evaluations"] += len(hs)
+    chk.log("value of it++: %d cases replayed (%d mismatching) in %.1fs" % (len(hs), len(mms), wall))
+
+
 def observe_only(chk, exe, cases, tag, what):
     """Cases outside the statement: run them, compare, record differences as notes (never violations)."""
     hs = [[c] for c in cases]
@@ -284,14 +314,14 @@ def model_checks(chk, quick):
     s = "" if quick else "_thorough"
     adtcheck.model_check(chk, SPEC, "IndexMapsMC", "IndexMapsMC%s.cfg" % s,
                          what="laws of flatten/reshape/longIndex/coordsOf/iteration for every extent, of for_each for every region")
-    for neg in ("IndexMapsMC_neg1.cfg", "IndexMapsMC_neg2.cfg"):
+    for neg in ("IndexMapsMC_neg1.cfg", "IndexMapsMC_neg2.cfg", "IndexMapsMC_neg3.cfg"):
         r = tla.run_tlc(os.path.join(SPEC, "IndexMapsMC.tla"), os.path.join(SPEC, neg), workers=4, timeout=300)
         if not r.violated:
             raise tla.InfraError("negative control %s was not violated: the laws are vacuous" % neg)
     r = tla.run_tlc(os.path.join(SPEC, "Array3DLaws.tla"), os.path.join(SPEC, "Array3DLaws_neg.cfg"), workers=4, timeout=300)
     if not r.violated:
         raise tla.InfraError("negative control Array3DLaws_neg.cfg was not violated: the out-of-extent laws are vacuous")
-    chk.cov["negative_controls_violated_as_expected"] = 3
+    chk.cov["negative_controls_violated_as_expected"] = 4
     adtcheck.model_check(chk, SPEC, "LimbsMC", "LimbsMC.cfg", workers=4, what="limb arithmetic laws (ASSUMEs)")
     adtcheck.model_check(chk, SPEC, "Array3DMC", "Array3DMC%s.cfg" % s, what="get(c) = value last set at clamp(c) after every history of New/Set/Clear up to K")
     adtcheck.model_check(chk, SPEC, "Array3DLaws", "Array3DLaws%s.cfg" % s, what="adaptor laws in every reachable array state")
@@ -357,10 +387,25 @@ def _run_conformance(chk, quick, rnd, s):
 def _run_cases(chk, quick, rnd, s, exe):
 
     # 2. functional cases: small extents, complete tables
-    cases = funcheck.gen_cases(chk, SPEC, "IndexMapsGen", "IndexMapsGen%s.cfg" % s, "c17-maps",
+    cases = funcheck.gen_cases(chk, SPEC, "IndexMapsGen", "IndexMapsGen%s.cfg" % s, "c17-maps", env={"JDK_JAVA_OPTIONS": "-Xss512m"},
                                what="complete flatten/reshape/longIndex/coordsOf tables and iteration / for_each sequences")
+    post = [c for c in cases if c["a"] in ("IterPost2", "IterPost3")]
+    cases = [c for c in cases if c["a"] not in ("IterPost2", "IterPost3")]
     n, wall = replay_cases(chk, exe, cases, "c17-maps")
     chk.log("index maps: %d cases replayed (%d mismatching) in %.1fs" % (len(cases), n, wall))
+    replay_postfix_value(chk, exe, post)
+    # vacuity guard: every way of writing the loop was generated for every extent 0..4 per axis, in 2D and in 3D
+    styles = {}
+    for c in cases + post:
+        if c["a"] in ("Seq2", "Seq3", "IterPost2", "IterPost3") and max(c["arg"]["d"]) <= 4:
+            for f in (WALK_STYLES if c["a"].startswith("Seq") else POSTFIX_STYLES):
+                if f in c["exp"]:
+                    styles[c["a"] + "/" + f] = styles.get(c["a"] + "/" + f, 0) + 1
+    chk.cov["walk_styles_per_extent"] = styles
+    for a, need, fields in (("Seq2", 25, WALK_STYLES), ("Seq3", 125, WALK_STYLES), ("IterPost2", 25, POSTFIX_STYLES), ("IterPost3", 125, POSTFIX_STYLES)):
+        for f in fields:
+            if styles.get(a + "/" + f, 0) < need:
+                raise tla.InfraError("vacuity guard: walk style %s generated for %d of %d extents of %s" % (f, styles.get(a + "/" + f, 0), need, a))
     chk.cov["distinct_nontrivial"] += len({json.dumps([c["a"], c["arg"]], sort_keys=True) for c in cases if c.get("cls") != "empty"})
     chk.add_sample({"kind": "case", "case": next(c for c in cases if c["a"] == "Seq2" and c["arg"]["d"] == [3, 2])})
 
@@ -448,7 +493,7 @@ def _run_cases(chk, quick, rnd, s, exe):
         st = neg.get(k)
         if not st or min(st["neg"]) == 0 or min(st["beyond"]) == 0 or st["regions_below_0"] == 0:
             raise tla.InfraError("vacuity guard: adaptor %s never queried with a negative / beyond-size coordinate on every axis: %s" % (k, st))
-    chk.require_actions(["Seq2", "Seq3", "Arr3", "ForEach", "Interleave3", "BigSeq3", "BigSeq2", "BigArr3", "BigIter3", "Actual", "Ranges", "View"])
+    chk.require_actions(["Seq2", "Seq3", "Arr3", "ForEach", "Interleave3", "IterPost2", "IterPost3", "BigSeq3", "BigSeq2", "BigArr3", "BigIter3", "Actual", "Ranges", "View"])
     for cls in ("shift", "shift>ext", "sub", "acc", "slices", "shift.sub", "sub.shift", "sub.sub", "shift.shift", "slices.sub", "acc.shift", "shift.slices"):
         if not chk.cov["adaptor_cases_by_class"].get(cls):
             raise tla.InfraError("vacuity guard: no adaptor case of class %s" % cls)
@@ -522,7 +567,9 @@ def _run_machine(chk, quick, rnd, s, exe, gen_result):
 def do_replay(chk, path):
     rep = json.load(open(path))
     exe = build.build("drv_array3d", san="address,undefined")
-    if rep["kind"] == "history":
+    if rep["kind"] == "history" and rep.get("fixed_sig"):
+        replay_postfix_value(chk, exe, rep["history"])
+    elif rep["kind"] == "history":
         adtcheck.replay(chk, exe, [rep["history"]], "replay", rep["sig_prefix"], isolate=1)
     else:
         if rep["sig_prefix"].endswith("/maps"):
